@@ -2,6 +2,8 @@ import Driver.Seq
 import Driver.Grp
 import Driver.Agg
 import Driver.Rsm
+import Driver.Apl
+import Driver.Csv
 /-
   gfdriver: reads protocol lines (one case per line) from the file given as first argument (or stdin),
   writes one verdict line per case: `<case-id> <engine> key=value …`.
@@ -17,6 +19,8 @@ def checkLine (line : String) : String :=
       | "GRP" => checkGrp
       | "AGG" => checkAgg
       | "RSM" => checkRsm
+      | "APL" => checkApl
+      | "CSV" => checkCsv
       | e => throw s!"unknown engine {e}"
     pure s!"{id} {eng} {res}"
   match runP p line with
